@@ -524,6 +524,11 @@ ATTRS = [
     "m=audio 9 rtp 0", "m=video 9 RTP/AVP   ", "m=text 9 RTP/AVP 0 x",
     "v=1", "v=x", "v= 2 ", "o=- 1 2 IN IP4 0.0.0.0", "o= x ", "s=x", "t=1 2", "b=AS:30", "", "a=", "a", " a=mid:x",
     "i=info", "a=unknown:1",
+    # separators and digits Python accepts beyond ASCII
+    "a=rtpmap:96\tVP8/90000", "a=fingerprint:sha-256\tAA:BB", "a=sctp-port:\u0663", "a=rtpmap:\u0669 x/8000",
+    "a=rtcp-fb:\u0663 nack", "a=ssrc:+7 cname:x", "a=extmap: 3  urn:y", "a=max-message-size: 12 ", "a=group:BUNDLE\ta  b",
+    "a=candidate:0\t1 UDP 1 1.2.3.4 5 typ host", "a=mid:\u00e9", "a=msid:x\x0bm=audio 9 RTP/AVP 0", "a=mid:1\u2028a=mid:2",
+    "m=audio 09 RTP/AVP 08", "m=video 9 RTP/AVP \u0663", "a=fmtp:96 apt=\u0663", "a=fmtp:96 stereo=+1;x=\u0663",
 ]
 
 
@@ -805,6 +810,36 @@ def show_cand(c):
     return s
 
 
+def proj_sobj(obj):
+    from aiortc import RTCIceCandidate, RTCSessionDescription
+    if isinstance(obj, RTCSessionDescription):
+        return [0, S(obj.sdp), S(obj.type)]
+    if isinstance(obj, RTCIceCandidate):
+        return [1, proj_cand(obj), opt(obj.sdpMid, S), opt(obj.sdpMLineIndex)]
+    return [2]
+
+
+def proj_msg(d):
+    """The JSON message reduced to what contrib/signaling.py reads (Model/Sdp.v `smsg`)."""
+    cand = []
+    if "candidate" in d:
+        v = d["candidate"]
+        if not v:
+            cand = [[0]]
+        else:
+            parts = v.split(":", 1)
+            if len(parts) < 2:
+                cand = [[1]]
+            else:
+                try:
+                    cand = [[2, lex_candidate_tokens(parts[1])]]
+                except ValueError:
+                    cand = [[3]]
+    return [opt(d.get("type"), S), opt(d.get("sdp"), S), cand,
+            [opt(d["id"], S)] if "id" in d else [], [opt(d["label"])] if "label" in d else [],
+            1 if any(k not in ("type", "sdp", "candidate", "id", "label") for k in d) else 0]
+
+
 def res(f):
     """Run f; [0, value] or [class of the exception]."""
     try:
@@ -838,12 +873,17 @@ class C09(Check):
     def __init__(self):
         self._pool = None
         self._browser = None
+        self._tier = "quick"
+
+    def run(self, tier, seed, ncases=None):
+        self._tier = tier
+        return super().run(tier, seed, ncases)
 
     # ------------------------------------------------------------ generator
     def pool(self, rng):
         if self._pool is None:
             self._pool = PcPool()
-            self._pool.build(rng, 14)
+            self._pool.build(rng, 30 if self._tier == "quick" else 400)
             self._browser = browser_sdps()
         return self._pool
 
@@ -919,12 +959,46 @@ class C09(Check):
 
     def gen_signaling(self, rng, pool):
         k = rng.random()
-        if k < 0.4:
+        if k < 0.3:
             c = gen_cand(rng)
             return ["s", "cand", c, rng.choice([None, "0", "audio", gtok(rng)]), rng.choice([None, 0, 1, 7])]
-        if k < 0.8:
-            return ["s", "desc", rng.choice(pool.texts + ["", "x"]), rng.choice(["offer", "answer"])]
-        return ["s", "bye"]
+        if k < 0.5:
+            return ["s", "desc", rng.choice(pool.texts + ["", "x"]), rng.choice(["offer", "answer", "answer", "pranswer"])]
+        if k < 0.55:
+            return ["s", "bye"]
+        # arbitrary message dictionaries for object_from_string
+        kind = rng.randrange(3)
+        if kind == 0:
+            d = {"sdp": rng.choice(["", "v=0\r\n"]), "type": rng.choice(["offer", "answer"])}
+        elif kind == 1:
+            text = show_cand(gen_cand(rng))
+            if rng.random() < 0.4:
+                bits = text.split(" ")
+                r = rng.random()
+                if r < 0.4:
+                    del bits[rng.randrange(len(bits))]
+                elif r < 0.7:
+                    bits[rng.randrange(len(bits))] = rng.choice(["x", "rport", "7"])
+                else:
+                    bits = bits[:rng.randrange(len(bits))]
+                text = " ".join(bits)
+            d = {"candidate": rng.choice(["candidate:", "candidate:", "candidate:", "", "a=candidate:", "x"]) + text,
+                 "id": rng.choice([None, "0", "mid"]), "label": rng.choice([None, 0, 3]), "type": "candidate"}
+            if rng.random() < 0.1:
+                d["candidate"] = rng.choice(["", "nocolon"])
+        else:
+            d = {"type": "bye"}
+        for _ in range(rng.randrange(0, 3)):
+            r = rng.random()
+            if r < 0.35 and d:
+                del d[rng.choice(sorted(d))]
+            elif r < 0.6:
+                d["type"] = rng.choice(["offer", "answer", "candidate", "bye", "pranswer", "x"])
+            elif r < 0.8:
+                d[rng.choice(["extra", "sdp", "id", "candidate"])] = rng.choice(["", "y", "candidate:1 2"])
+            else:
+                d["label"] = rng.choice([None, 5])
+        return ["j", d]
 
     def describe_case(self, case):
         if case[0] == "t":
@@ -983,9 +1057,13 @@ class C09(Check):
                     [S(x) for kv in sdp.DTLS_ROLE_SETUP.items() for x in kv],
                     [S("audio"), S("video"), S(str(None)), S("typ"), S("raddr"), S("rport"), S("tcptype")],
                     [sdp.DTLS_SETUP_ROLE[v] == k for k, v in sdp.DTLS_ROLE_SETUP.items()],
-                    sdp.FMTP_INT_PARAMETERS == FMTP_INT_PARAMETERS, sdp.DIRECTIONS == DIRECTIONS]
+                    sdp.FMTP_INT_PARAMETERS == FMTP_INT_PARAMETERS, sdp.DIRECTIONS == DIRECTIONS,
+                    [S("offer"), S("answer"), S("candidate"), S("bye")]]
         if t == "s":
             return [5] + self.signaling_impl(case)
+        if t == "j":
+            from aiortc.contrib.signaling import object_from_string
+            return [6, res(lambda: proj_sobj(object_from_string(json.dumps(case[1]))))]
         raise ValueError(t)
 
     def signaling_impl(self, case):
@@ -1000,16 +1078,13 @@ class C09(Check):
         else:
             obj = BYE
         msg = object_to_string(obj)
-        back = object_from_string(msg)
-        if case[1] == "cand":
-            same = (proj_cand(back) == proj_cand(obj) and back.sdpMid == obj.sdpMid
-                    and back.sdpMLineIndex == obj.sdpMLineIndex)
-        elif case[1] == "desc":
-            same = isinstance(back, RTCSessionDescription) and back.sdp == obj.sdp and back.type == obj.type
-        else:
-            same = back is BYE
+        try:
+            back = object_from_string(msg)
+        except Exception as exc:
+            return [proj_msg(json.loads(msg)), [classify_exc(exc)], 0, 0]
+        same = proj_sobj(back) == proj_sobj(obj)
         again = object_to_string(back)
-        return [1 if same else 0, 1 if again == msg else 0, S(json.dumps(json.loads(msg), sort_keys=True))]
+        return [proj_msg(json.loads(msg)), [0, proj_sobj(back)], 1 if same else 0, 1 if again == msg else 0]
 
     # ------------------------------------------------------------ model side
     def encode(self, case):
@@ -1032,6 +1107,14 @@ class C09(Check):
                 return [9]
         if t == "k":
             return [4]
+        if t == "s":
+            if case[1] == "cand":
+                return [5, [1, case[2], opt(case[3], S), opt(case[4])]]
+            if case[1] == "desc":
+                return [5, [0, S(case[2]), S(case[3])]]
+            return [5, [2]]
+        if t == "j":
+            return [6, proj_msg(case[1])]
         return [9]
 
     def canon_round(self, r):
@@ -1063,20 +1146,13 @@ class C09(Check):
             text = " ".join(show_tok(x) for x in out[1])
             return [2, out[0], S(text), out[2]]
         if t == "k":
-            return [4, out[0], out[1], out[2], out[3], [True, True, True], True, True]
+            return [4, out[0], out[1], out[2], out[3][:7], [True, True, True], True, True, out[3][7:]]
         if t == "s":
-            return [5] + self.signaling_model(case)
+            ok = 1 if out[1][0] == 0 else 0
+            return [5, out[0], out[1], ok, ok]
+        if t == "j":
+            return [6, out[0]]
         return out
-
-    def signaling_model(self, case):
-        """contrib/signaling.py 25-54 over the model's candidate functions: the message dictionary."""
-        if case[1] == "cand":
-            msg = {"candidate": "candidate:" + show_cand(case[2]), "id": case[3], "label": case[4], "type": "candidate"}
-        elif case[1] == "desc":
-            msg = {"sdp": case[2], "type": case[3]}
-        else:
-            msg = {"type": "bye"}
-        return [1, 1, S(json.dumps(msg, sort_keys=True))]
 
     # ------------------------------------------------------------ oracle: the property on the implementation
     def oracle(self, case, out):
@@ -1123,7 +1199,9 @@ class C09(Check):
                 return ("candidate-text-roundtrip", "candidate_to_sdp(candidate_from_sdp(t)) != t")
             return None
         if t == "s":
-            if out[1] != 1 or out[2] != 1:
+            if case[1] == "desc" and case[3] not in ("offer", "answer"):
+                return None          # the helper only carries offers and answers (sobj_ok)
+            if out[2][0] != 0 or out[3] != 1 or out[4] != 1:
                 return ("signaling-roundtrip", "object_from_string(object_to_string(x)) != x")
         return None
 
@@ -1172,7 +1250,7 @@ class C09(Check):
             elif c[0] == "c":
                 d["candidates"] += 1
                 d["candidates_ok"] += 1 if o[1][0] == 0 else 0
-            elif c[0] == "s":
+            elif c[0] in ("s", "j"):
                 d["signaling"] += 1
         if self._pool:
             d["pc_texts"] = len(self._pool.texts)
